@@ -226,6 +226,9 @@ func (a *analysis) oracleC04() verdict {
 	if r.msg != "" {
 		return a.fv(a.tapeKey(r.key), "%s", r.msg)
 	}
+	if m := a.extenderRows(); m != "" {
+		return a.fv("row-group-incomplete", "%s", m)
+	}
 	// cursor prefix arithmetic stated directly as well
 	nt := false
 	for fi := 1; fi < len(a.frames); fi++ {
@@ -241,6 +244,38 @@ func (a *analysis) oracleC04() verdict {
 		}
 	}
 	return held(nt)
+}
+
+// extenderRows: a bar's row group is its row plus the lines of its extender, all
+// of them, below the row or (reverse flag) above it, in every frame in which
+// nothing was clipped by the frame height. Returns "" or the violation.
+func (a *analysis) extenderRows() string {
+	sc := a.sc
+	height := sc.Width // not a terminal: the library takes the width for the height
+	if sc.Mode == "pty" {
+		height = sc.PtyRows - 1
+	}
+	for fi, f := range a.frames {
+		if f.rowCount() >= height {
+			continue // rows were (or may have been) clipped
+		}
+		for _, g := range f.Groups {
+			if g.ID < 0 || g.ID >= len(sc.Bars) {
+				continue
+			}
+			spec := sc.Bars[g.ID]
+			if spec.Ext <= 0 || spec.ExtFailAt > 0 || g.MainIdx < 0 {
+				continue
+			}
+			if len(g.Lines) != spec.Ext+1 {
+				return fmt.Sprintf("frame %d: bar %d has an extender writing %d lines, its row group has %d line(s): %q", fi, g.ID, spec.Ext, len(g.Lines), g.Lines)
+			}
+			if want := map[bool]int{false: 0, true: spec.Ext}[spec.ExtRev]; g.MainIdx != want {
+				return fmt.Sprintf("frame %d: bar %d extends %s, but its row is line %d of the group %q", fi, g.ID, map[bool]string{false: "below", true: "above (reverse)"}[spec.ExtRev], g.MainIdx, g.Lines)
+			}
+		}
+	}
+	return ""
 }
 
 func (a *analysis) oracleC18() verdict {
